@@ -1298,6 +1298,7 @@ def gen_dpanic(tier, rng):
 
 def oracle_dpanic(ops, io, ctx):
     op = ops[0]; o = io[0]
+    if len(op) != 3 or op[0] < 20: return oracle_ctor(ops, io, ctx)      # an ordinary constructor case (from the corpus)
     if len(o) < 4 or o[0] > 1: return None
     parts = ct_split(o)
     if len(parts) != 3: return 'malformed observation'
